@@ -5,6 +5,11 @@
 import GM.Model.Util
 import GM.Spec.Html
 import GM.Proof.Util
+import GM.Spec.UrlEsc
+import GM.Proof.UrlEscape
+import GM.Proof.Resolve
+import GM.Proof.LinkRef
+import GM.Proof.Filter
 
 namespace GM.Props.C19
 open GM GM.Spec
@@ -17,5 +22,202 @@ theorem escapeHTML_amps (v : Bytes) : ampsOK4 (escapeHTML v) = true := Proof.esc
 
 /-- EscapeHTML output decodes back to the input. -/
 theorem decode_escapeHTML (v : Bytes) : htmlDecode4 (escapeHTML v) = v := Proof.decode_escapeHTML v
+
+/-! ### URLEscape -/
+
+/-- `URLEscape(v, false)` is the escaping loop alone; `URLEscape(v, true)` first unescapes backslashes and
+    resolves numeric and named references, then runs the same loop. So every law below about
+    `urlEscapeRaw` on all byte strings covers both modes. -/
+theorem urlEscape_modes (v : Bytes) :
+    urlEscape v false = urlEscapeRaw v ∧
+    urlEscape v true = urlEscapeRaw (resolveEntities (resolveNumeric (unescapePunct v))) := ⟨rfl, rfl⟩
+
+/-- URLEscape output (either mode, any input bytes) contains no byte ≤ 0x20 (space, C0 controls), no 0x7f,
+    no `"`, `<`, `>`. (Bytes ≥ 0x80 that cannot start a UTF-8 sequence are copied as they are, so the output
+    of an ill-formed input can contain raw 0x80–0xC1 / 0xF8–0xFF bytes; see `urlEscape_ascii_of_valid`.) -/
+theorem urlEscape_bytes (v : Bytes) (r : Bool) : urlBytesClean (urlEscape v r) = true := Proof.urlEscapeRaw_clean _
+
+/-- Every `%` in URLEscape output is followed by two hex digits. -/
+theorem urlEscape_pct (v : Bytes) (r : Bool) : pctOK (urlEscape v r) = true := Proof.urlEscapeRaw_pct _
+
+/-- Valid UTF-8 input gives pure-ASCII output (no reference resolution). -/
+theorem urlEscape_ascii_of_valid (v : Bytes) (hv : validUtf8 v = true) : isAscii (urlEscape v false) = true :=
+  Proof.urlEscapeRaw_ascii_of_valid v hv
+
+/-- The same with reference resolution switched on: valid UTF-8 input gives pure-ASCII output, because the
+    three resolvers keep valid UTF-8 valid (next section). -/
+theorem urlEscape_ascii_of_valid_resolving (v : Bytes) (hv : validUtf8 v = true) :
+    isAscii (urlEscape v true) = true :=
+  Proof.urlEscapeRaw_ascii_of_valid _
+    (Proof.resolveEntities_valid _ (Proof.resolveNumeric_valid _ (Proof.unescapePunct_valid _ hv)))
+
+/-- non-vacuity + test: "é ü" is valid UTF-8 and its escape is ASCII -/
+example : validUtf8 [0xC3, 0xA9, 32, 0xC3, 0xBC] = true ∧
+    urlEscape [0xC3, 0xA9, 32, 0xC3, 0xBC] false = strBytes "%C3%A9%20%C3%BC" := by decide +kernel
+
+/-- The hypothesis is needed: a byte that cannot start a UTF-8 sequence is copied unchanged (test). -/
+example : urlEscape [0x80, 32] false = [0x80, 37, 50, 48] := by decide +kernel
+
+/-- An existing `%XX` triple (two hex digits) anywhere in the input is kept verbatim: the output is some
+    prefix, the triple, and then exactly the escaping of what followed the triple (or, when nothing at all
+    had to be escaped and the input is returned as it is, what followed it). -/
+theorem urlEscape_keeps_triples (a b : Bytes) (x y : UInt8) (hx : isHexDigit x = true) (hy : isHexDigit y = true) :
+    ∃ p, urlEscape (a ++ 37 :: x :: y :: b) false =
+      p ++ 37 :: x :: y ::
+        (if urlCopies (a ++ 37 :: x :: y :: b).length (a ++ 37 :: x :: y :: b)
+         then urlEscapeLoop (a ++ 37 :: x :: y :: b).length b else b) :=
+  Proof.urlEscapeRaw_keeps_triple a b x y (by rw [Proof.isHex_eq_spec]; exact hx) (by rw [Proof.isHex_eq_spec]; exact hy)
+
+/-- non-vacuity + test: `a b%4Fc d` keeps `%4F` -/
+example : isHexDigit 52 = true ∧ isHexDigit 70 = true ∧
+    urlEscape (strBytes "a b%4Fc d") false = strBytes "a%20b%4Fc%20d" := by decide +kernel
+
+/-- URLEscape (without reference resolution) is idempotent: escaping its own output (from either mode)
+    changes nothing. -/
+theorem urlEscape_idem (v : Bytes) (r : Bool) : urlEscape (urlEscape v r) false = urlEscape v r :=
+  Proof.urlEscapeRaw_idem _
+
+/-! ### the resolvers keep valid UTF-8 valid -/
+
+/-- UnescapePunctuations maps valid UTF-8 to valid UTF-8. -/
+theorem unescape_valid (v : Bytes) (hv : validUtf8 v = true) : validUtf8 (unescapePunct v) = true :=
+  Proof.unescapePunct_valid v hv
+
+/-- ResolveNumericReferences maps valid UTF-8 to valid UTF-8 (whatever number is written, including
+    zero, surrogates, values above U+10FFFF and digit strings that overflow 32 bits). -/
+theorem resolveNumeric_valid (v : Bytes) (hv : validUtf8 v = true) : validUtf8 (resolveNumeric v) = true :=
+  Proof.resolveNumeric_valid v hv
+
+/-- ResolveEntityNames maps valid UTF-8 to valid UTF-8 (uses: every one of the regenerated table's
+    expansions is valid UTF-8, checked by the kernel). -/
+theorem resolveEntity_valid (v : Bytes) (hv : validUtf8 v = true) : validUtf8 (resolveEntities v) = true :=
+  Proof.resolveEntities_valid v hv
+
+/-- non-vacuity + tests: valid inputs on which each resolver really rewrites something -/
+example : validUtf8 (strBytes "a\\*é") = true ∧ unescapePunct (strBytes "a\\*é") = strBytes "a*é" := by decide +kernel
+example : validUtf8 (strBytes "&#xe9;&#233;") = true ∧ resolveNumeric (strBytes "&#xe9;&#233;") = strBytes "éé" := by
+  decide +kernel
+example : validUtf8 (strBytes "&ouml;&amp;") = true ∧ resolveEntities (strBytes "&ouml;&amp;") = strBytes "ö&" := by
+  decide +kernel
+
+/-- Every replacement ResolveNumericReferences writes is the UTF-8 encoding of `runeOfUint32 n` for the
+    parsed number `n`, and that rune is always valid and non-zero: `n = 0`, surrogates D800–DFFF and
+    everything above U+10FFFF (also ≥ 2^31, which Go's `rune(v)` turns negative; `ParseUint` saturates
+    at 2^32-1 on overflow) become U+FFFD, every other `n` stays `n`. -/
+theorem numeric_out_of_range (n : Nat) :
+    validRune (runeOfUint32 n) = true ∧ runeOfUint32 n ≠ 0 ∧
+    ((n = 0 ∨ 0x10FFFF < n ∨ (0xD800 ≤ n ∧ n ≤ 0xDFFF)) → runeOfUint32 n = 0xFFFD) ∧
+    (¬(n = 0 ∨ 0x10FFFF < n ∨ (0xD800 ≤ n ∧ n ≤ 0xDFFF)) → runeOfUint32 n = n) := Proof.runeOfUint32_spec n
+
+/-- tests: `&#0;`, `&#xD800;`, `&#x110000;`, and an overflowing `&#xFFFFFFFFFF;` all give U+FFFD (EF BF BD) -/
+example : resolveNumeric (strBytes "&#0;") = [0xEF, 0xBF, 0xBD] ∧
+    resolveNumeric (strBytes "&#xD800;") = [0xEF, 0xBF, 0xBD] ∧
+    resolveNumeric (strBytes "&#x110000;") = [0xEF, 0xBF, 0xBD] ∧
+    resolveNumeric (strBytes "&#xFFFFFFFFFF;") = [0xEF, 0xBF, 0xBD] := by decide +kernel
+
+/-! ### link-label normalisation (ToLinkReference) -/
+
+/-- What ToLinkReference computes, for every byte string: trim the set " \t\n\v\f\r" at both ends, apply
+    the full case folding, then rewrite every maximal run of " \t\n\r" to one space. (ReplaceSpaces'
+    shortcut "only a trailing run: return the input unchanged" can never apply after the trim.) -/
+theorem toLinkRef_normal_form (v : Bytes) :
+    toLinkReference v = replaceSpacesAll 32 (caseFold (trimRightSpace (trimLeftSpace v))) :=
+  Proof.toLinkReference_eq v
+
+/-- Normalisation is idempotent. (Uses the table fact `Proof.foldTable_closed`: no folding result is itself
+    a key of the folding table, checked by the kernel on the regenerated table.) -/
+theorem toLinkRef_idem (v : Bytes) : toLinkReference (toLinkReference v) = toLinkReference v :=
+  Proof.toLinkReference_idem v
+
+/-- Case folding alone is idempotent as well. -/
+theorem caseFold_idem (v : Bytes) : caseFold (caseFold v) = caseFold v := Proof.caseFold_idem v
+
+/-- White space 1: any leading bytes from " \t\n\v\f\r" are ignored. -/
+theorem toLinkRef_ws_leading (w v : Bytes) (hw : w.all isTrimSpace = true) :
+    toLinkReference (w ++ v) = toLinkReference v := Proof.toLinkReference_ws_lead w v hw
+
+/-- White space 2: any trailing bytes from " \t\n\v\f\r" are ignored. -/
+theorem toLinkRef_ws_trailing (v w : Bytes) (hw : w.all isTrimSpace = true) :
+    toLinkReference (v ++ w) = toLinkReference v := Proof.toLinkReference_ws_trail v w hw
+
+/-- White space 3: two labels that differ only in how one run of " \t\n\r" (IsSpace: no \v, \f) is
+    spelled — any non-empty run against any other — normalise to the same key, wherever the run is. -/
+theorem toLinkRef_ws (a w1 w2 b : Bytes) (h1 : w1 ≠ []) (h2 : w2 ≠ []) (hw1 : w1.all isSpace = true)
+    (hw2 : w2.all isSpace = true) :
+    toLinkReference (a ++ w1 ++ b) = toLinkReference (a ++ w2 ++ b) :=
+  Proof.toLinkReference_ws_run a w1 w2 b h1 h2 hw1 hw2
+
+/-- non-vacuity + test -/
+example : toLinkReference (strBytes " \tFoo \n\t bar\r\n") = strBytes "foo bar" ∧
+    toLinkReference (strBytes "Foo bar") = strBytes "foo bar" := by decide +kernel
+
+/-- The statement "labels that differ only in runs of whitespace are identified" is FALSE of the code when
+    vertical tab / form feed count as white space: interior \v and \f are neither collapsed nor mapped to a
+    space (they are only trimmed at the ends). Witness: "a\vb" vs "a b". (`toLinkRef_ws` is the true
+    version.) -/
+theorem toLinkRef_ws_vt_refuted :
+    toLinkReference [97, 11, 98] ≠ toLinkReference [97, 32, 98] ∧
+    toLinkReference [97, 12, 98] ≠ toLinkReference [97, 32, 98] := by decide +kernel
+
+/-- Letter case 1: an upper-case ASCII letter anywhere in a label can be replaced by the lower-case one. -/
+theorem toLinkRef_case_ascii (a b : Bytes) (c : UInt8) (hc : (65 ≤ c && c ≤ 90) = true) :
+    toLinkReference (a ++ [c] ++ b) = toLinkReference (a ++ [c + 32] ++ b) :=
+  Proof.toLinkReference_case_ascii a b c hc
+
+/-- Letter case 2 (Unicode): a rune that has an entry `r ↦ f` in the regenerated folding table
+    (`unicodeCaseFoldings`) can be replaced, anywhere in a label, by the UTF-8 encoding of `f`. -/
+theorem toLinkRef_case (a b : Bytes) (r : Nat) (f : List Nat) (hf : lookupFold r = some f) :
+    toLinkReference (a ++ encodeRune r ++ b) = toLinkReference (a ++ f.flatMap encodeRune ++ b) :=
+  Proof.toLinkReference_case_fold a b r f hf
+
+/-- non-vacuity + tests: ẞ (U+1E9E) folds to "ss", Ä to ä, K (Kelvin sign U+212A) to k -/
+example : lookupFold 0x1E9E = some [115, 115] ∧ lookupFold 0xC4 = some [0xE4] ∧ lookupFold 0x212A = some [107] := by
+  decide +kernel
+example : toLinkReference (strBytes "Straẞe") = strBytes "strasse" ∧
+    toLinkReference (strBytes "ÄK") = strBytes "äk" := by decide +kernel
+
+/-! ### BytesFilter over the slice-with-capacity heap — PARTIAL
+
+  The full statements (`filter_is_set`: after any program, `contains h f b ↔ b ∈` the plain set the spec
+  assigns to filter `f`; `extend_isolated`) are NOT proved here; they are checked on the real code by the
+  `filter` correspondence and its oracle. Proved are the two heap-level facts they rest on. -/
+
+/-- PARTIAL (frame lemma for Go's `append`, including the in-place write when `len < cap`): appending `b`
+    to a well-formed slot header touches no filter; the resulting header is well-formed and sees the old
+    elements followed by `b`; it lives on the same backing array or on a freshly allocated one; and every
+    other well-formed header on a different backing array (or nil) sees exactly what it saw before. -/
+theorem filter_append_frame_partial (h : Filter.Heap) (s : Filter.Slice) (b : Bytes) (wf : Proof.Filter.slotWF h s) :
+    (Filter.appendSlice h s b).1.filts = h.filts ∧
+    h.arrs.length ≤ (Filter.appendSlice h s b).1.arrs.length ∧
+    Proof.Filter.slotWF (Filter.appendSlice h s b).1 (Filter.appendSlice h s b).2 ∧
+    Filter.sliceElems (Filter.appendSlice h s b).1 (Filter.appendSlice h s b).2 = Filter.sliceElems h s ++ [b] ∧
+    ((Proof.Filter.arrOf (Filter.appendSlice h s b).2 = Proof.Filter.arrOf s ∧ s ≠ none) ∨
+      Proof.Filter.arrOf (Filter.appendSlice h s b).2 = some h.arrs.length) ∧
+    ∀ t, Proof.Filter.slotWF h t → Proof.Filter.arrOf t ≠ Proof.Filter.arrOf s ∨ t = none →
+      Proof.Filter.slotWF (Filter.appendSlice h s b).1 t ∧
+      Filter.sliceElems (Filter.appendSlice h s b).1 t = Filter.sliceElems h t :=
+  Proof.Filter.appendSlice_spec h s b wf
+
+/-- non-vacuity + test: a header with len 1 on an array of cap 2 is well-formed; the append is in place -/
+example : Proof.Filter.slotWF ⟨[⟨2, [[1]]⟩], []⟩ (some (0, 1)) ∧
+    (Filter.appendSlice ⟨[⟨2, [[1]]⟩], []⟩ (some (0, 1)) [2]).2 = some (0, 2) := by
+  refine ⟨⟨by decide, by decide⟩, by decide⟩
+
+/-- PARTIAL (Extend's slot copy, as repaired): copying the parent's slots allocates one new array per slot;
+    the j-th new header lives on array `old length + j` (hence on no array that existed before, and the new
+    headers are pairwise on different arrays), is well-formed and sees exactly what the parent's j-th slot
+    saw; old arrays and all filters are unchanged. With the frame lemma this is why a later `Add` to the
+    parent, the child or a sibling cannot show through. -/
+theorem filter_extend_copy_partial (h : Filter.Heap) (slots : List Filter.Slice)
+    (hwf : ∀ s ∈ slots, Proof.Filter.slotWF h s) :
+    ∃ X news, (Filter.copySlots h slots).1.arrs = h.arrs ++ X ∧ (Filter.copySlots h slots).1.filts = h.filts ∧
+      (Filter.copySlots h slots).2 = news ∧ news.length = slots.length ∧ X.length = slots.length ∧
+      ∀ j, j < slots.length →
+        Proof.Filter.arrOf (news.getD j none) = some (h.arrs.length + j) ∧
+        Proof.Filter.slotWF (Filter.copySlots h slots).1 (news.getD j none) ∧
+        Filter.sliceElems (Filter.copySlots h slots).1 (news.getD j none) =
+          Filter.sliceElems h (slots.getD j none) := by
+  obtain ⟨X, news, e1, e2, e3, e4, e5, e6⟩ := Proof.Filter.copyGo_spec slots h [] hwf
+  exact ⟨X, news, e1, e2, by rw [List.nil_append] at e3; exact e3, e4, e5, e6⟩
 
 end GM.Props.C19
